@@ -122,6 +122,41 @@ pub fn compress_sweep(ctx: &Ctx, rep: &mut Report) {
         rep.count("grid_rows", 1);
     });
     rep.merge(r);
+    // every unary run length at every bit offset: k zero coefficients (9 bits each) put the probe
+    // at offset k mod 8; the probe takes every high part 0..95 with low parts {0,1,127}, both
+    // signs, alone and twice in a row, followed by small coefficients, generous budget
+    let r = par_for(8, ncpu(), |k, rep| {
+        for high in 0..=95i64 {
+            for low in [0i64, 1, 127] {
+                for sgn in [1i64, -1] {
+                    let v = sgn * ((high << 7) | low);
+                    if v.abs() > 12159 {
+                        continue;
+                    }
+                    let mut vec1 = vec![0i64; k];
+                    vec1.push(v);
+                    vec1.extend([1, -1, 0]);
+                    let l1 = (spec::compressed_bits(&vec1) + 7) / 8 + 2;
+                    check_compress(&vec1, l1, rep);
+                    let mut vec2 = vec![0i64; k];
+                    vec2.extend([v, v, 5]);
+                    let l2 = (spec::compressed_bits(&vec2) + 7) / 8 + 1;
+                    check_compress(&vec2, l2, rep);
+                    // inside a production-size vector of small coefficients
+                    let mut vec3 = vec![3i64; 512];
+                    for z in vec3.iter_mut().take(k) {
+                        *z = 0;
+                    }
+                    vec3[k + 100] = v;
+                    check_compress(&vec3, 625 + 16, rep);
+                    rep.count("run_length_x_offset_cases", 3);
+                }
+            }
+        }
+        rep.nontrivial(format!("runxoff|{}", k).as_bytes());
+    });
+    rep.merge(r);
+    rep.require("run_length_x_offset_cases", 10_000);
     // LARGE encodings: long vectors and large coefficients whose encoding crosses 2^15, 2^16 and
     // 2^17 bits (a write position or a length kept in a narrow integer wraps there), with the
     // budget exactly fitting, one byte short, and generous
